@@ -42,7 +42,7 @@ try:
     r = run(["git", "-C", wt, "apply", patch])
     if r.returncode != 0:
         sys.exit("patch does not apply: " + r.stderr)
-    shutil.copytree("/verif", vcopy, ignore=shutil.ignore_patterns(".git", "target*", "evidence", "replays", "verif-try-*", "seeded"))
+    shutil.copytree(os.environ.get("VERIF_SRC", "/verif"), vcopy, ignore=shutil.ignore_patterns(".git", "target*", "evidence", "replays", "verif-try-*", "seeded"))
     ct = vcopy + "/harness/Cargo.toml"
     t = open(ct).read()
     assert 'path = "/repo"' in t
